@@ -25,6 +25,11 @@ func (b bareItem) item() ap.Item {
 		return &ap.Actor{ID: ap.ID(b.ID), Type: ap.ActivityVocabularyType(b.Typ)}
 	case "activity":
 		return &ap.Activity{ID: ap.ID(b.ID), Type: ap.ActivityVocabularyType(b.Typ)}
+	case "rich-activity":
+		// activities that agree in everything but their id (the same person listening to the same track through the same service, twice)
+		return &ap.Activity{ID: ap.ID(b.ID), Type: ap.ActivityVocabularyType(b.Typ), Actor: ap.IRI("https://example.com/~sally"),
+			Object: ap.IRI("https://example.com/track/1"), Instrument: ap.IRI("https://example.com/service"), Target: ap.IRI("https://example.com/t"),
+			Name: ap.NaturalLanguageValues{{Ref: ap.NilLangRef, Value: ap.Content("same name")}}}
 	}
 	panic("shape")
 }
@@ -86,6 +91,9 @@ func describe(it ap.Item) [3]string {
 	case *ap.Actor:
 		return [3]string{"actor", string(v.ID), string(v.Type)}
 	case *ap.Activity:
+		if v.Instrument != nil {
+			return [3]string{"rich-activity", string(v.ID), string(v.Type)}
+		}
 		return [3]string{"activity", string(v.ID), string(v.Type)}
 	}
 	return [3]string{fmt.Sprintf("%T", it), string(it.GetLink()), string(it.GetType())}
@@ -148,6 +156,16 @@ func runCollCase(cs collCase) (res map[string]interface{}, viol string) {
 				outs = append(outs, "ok")
 				if !has(x) {
 					ref = append(ref, x)
+				}
+			case "append3":
+				// one variadic call with three items: x, y and x again
+				y := int(num(op[2]))
+				_ = h.ci.Append(items[x], items[y], items[x])
+				outs = append(outs, "ok", "ok", "ok")
+				for _, z := range []int{x, y, x} {
+					if !has(z) {
+						ref = append(ref, z)
+					}
 				}
 			case "contains":
 				got := h.ci.Contains(items[x])
@@ -216,6 +234,14 @@ var c13Pool = []bareItem{
 	{"activity", "https://example.com/d", "Create"},
 }
 
+// a third pool: members that agree in every property except their ids
+var c13RichPool = []bareItem{
+	{"rich-activity", "https://example.com/listen/1", "Listen"},
+	{"rich-activity", "https://example.com/listen/2", "Listen"},
+	{"rich-activity", "https://example.com/listen/3", "Listen"},
+	{"object", "https://example.com/track/1", "Audio"},
+}
+
 // a second pool with pairwise distinct but path-nested ids (an actor and things below it)
 var c13NestedPool = []bareItem{
 	{"activity", "https://example.com/actors/jdoe/outbox/1", "Create"},
@@ -239,12 +265,15 @@ func c13Ops(kind string, n int) [][]interface{} {
 			ops = append(ops, []interface{}{"remove", i})
 		}
 	}
+	for i := 0; i+1 < n; i += 2 {
+		ops = append(ops, []interface{}{"append3", i, i + 1}) // a variadic Append that repeats an item within one call
+	}
 	return append(ops, []interface{}{"count"})
 }
 
 func init() {
 	campaigns["C13"] = func(c *Ctx) {
-		c.Rule = "histories of Append/Contains/Remove/Count (Remove through the item-list view; IRI lists: no Remove) over pools of 4 items of mixed shapes (IRI, object, actor, activity) with pairwise distinct ids (one flat, one with path-nested ids), for each of the 6 collection kinds: exhaustive to a length bound (item list: 4 quick / 5 thorough; other kinds: 3 / 4), random to length 40; plus pools with equivalent ids (scheme/case/slash/query-order variants, IRI vs object of one id) for the model/code correspondence only. After every step contents, Count and Contains are compared with a reference insertion-ordered set. Non-trivial = at least one operation."
+		c.Rule = "histories of Append (single and variadic with a repeated item)/Contains/Remove/Count (Remove through the item-list view; IRI lists: no Remove) over pools of 4 items of mixed shapes (IRI, object, actor, activity) with pairwise distinct ids (one flat, one with path-nested ids, one whose members agree in every property except their ids), for each of the 6 collection kinds: exhaustive to a length bound (item list: 4 quick / 5 thorough; other kinds: 3 / 4), random to length 40; plus pools with equivalent ids (scheme/case/slash/query-order variants, IRI vs object of one id) for the model/code correspondence only. After every step contents, Count and Contains are compared with a reference insertion-ordered set. Non-trivial = at least one operation."
 		for _, kind := range collKinds {
 			maxLen := c.N(3, 4)
 			if kind == "ItemCollection" {
@@ -278,8 +307,10 @@ func init() {
 					init = []int{}
 				}
 				pool := c13Pool
-				if i%2 == 1 {
+				if i%3 == 1 {
 					pool = c13NestedPool
+				} else if i%3 == 2 {
+					pool = c13RichPool
 				}
 				c13Case(c, collCase{Kind: kind, Pool: pool, Init: init, Ops: h, Distinct: true})
 			}
